@@ -151,7 +151,7 @@ pub fn check(sc: &ConnScenario, out: &ConnOutcome, rep: &mut RunReport) {
     if !honest && out.result == "Ok" {
         rep.violate("dishonest_response_ends_connection", format!("variant {:?} but listen() returned Ok", c.enc));
     }
-    if honest && !secret_ok && (granted || out.result == "Ok") {
+    if honest && !secret_ok && (granted || extra_bytes || out.result == "Ok") {
         rep.violate("wrong_secret_length_grants_nothing", format!("secret of wrong length but packets {:?} result {}", out.view.kinds(), out.result));
     }
     if auth_failed && (granted || out.result == "Ok") {
